@@ -1110,6 +1110,16 @@ class CPreProcessor:
                 if value:
                     value = self._eval_tree(expr.b)
                 value = int(bool(value))
+            elif expr.op in ("/", "%"):
+                a = self._eval_tree(expr.a)
+                b = self._eval_tree(expr.b)
+                if b == 0:
+                    self.error("Division by zero in #if", loc=expr.location)
+                # C division truncates towards zero:
+                quotient = abs(a) // abs(b)
+                if (a < 0) != (b < 0):
+                    quotient = -quotient
+                value = quotient if expr.op == "/" else a - quotient * b
             else:
                 func = self.OP_MAP[expr.op][2]
                 value = func(self._eval_tree(expr.a), self._eval_tree(expr.b))
